@@ -52,6 +52,10 @@ class Prop:
     def nontrivial(self, case, mobs):
         return not (mobs.endswith(" n") or mobs.startswith("ERR parse 0 ") or mobs == "OK [ ]")
 
+    def spec_line(self, case):
+        """case line for the executable specification (extracted from Coq), or None"""
+        return None
+
     def oracle(self, case, iobs):
         """Independent oracle on the implementation's observation: None if fine, else a message."""
         return None
@@ -77,8 +81,13 @@ def known_match(known, pid, case, iobs):
     return None
 
 
-def judge(P, case, mobs, iobs, known):
+def judge(P, case, mobs, iobs, known, sobs=None):
     """-> (status, detail); status in ok | unmodelled | known | violation"""
+    if sobs is not None and sobs not in ("UNMODELLED", "BADCASE") and canon(sobs) != canon(iobs):
+        k = known_match(known, P.id, case, iobs)
+        if k:
+            return "known", k["id"]
+        return "violation", "implementation differs from the specification: specified %s, observed %s" % (sobs, iobs)
     if mobs == "BADCASE" or iobs == "BADCASE":
         return "violation", "machinery: case line not understood (model=%s impl=%s)" % (mobs, iobs)
     if mobs == "UNMODELLED":
@@ -137,7 +146,7 @@ def run_property(P, tier, seed, replay=None):
 
     # 2. proofs
     obligations = []
-    if P.has_props:
+    if P.has_props and os.path.exists(os.path.join(vlib.COQ, 'theories', 'Props', P.id + '.v')):
         pc = vlib.props_check(P.id)
         obligations = pc["obligations"]
         if not pc["ok"]:
@@ -182,14 +191,20 @@ def run_property(P, tier, seed, replay=None):
             ulines.append(l)
     lines = ulines
     mobs = vlib.run_exe(driver, lines, timeout=900, unlimited_stack=True)
+    slines = [P.spec_line(l) for l in lines]
+    sidx = [i for i, l in enumerate(slines) if l]
+    sres = vlib.run_exe(driver, [slines[i] for i in sidx], timeout=900, unlimited_stack=True)
+    sobs = [None] * len(lines)
+    for i, o in zip(sidx, sres):
+        sobs[i] = o
     stats = {"ok": 0, "unmodelled": 0, "known": 0, "violation": 0}
     known_hit = {}
     nontrivial = set()
     viol_cases = []
     for bname, exe in bins:
         iobs = vlib.run_exe(exe, lines, timeout=P.impl_timeout)
-        for c, m, i in zip(lines, mobs, iobs):
-            st, detail = judge(P, c, m, i, known)
+        for c, m, i, so in zip(lines, mobs, iobs, sobs):
+            st, detail = judge(P, c, m, i, known, so)
             stats[st] += 1
             if st == "known":
                 known_hit.setdefault(detail, (c, i))
@@ -238,7 +253,9 @@ def run_property(P, tier, seed, replay=None):
             def still(cand, exe=exe):
                 mo = vlib.run_exe(driver, [cand], timeout=60, unlimited_stack=True)[0]
                 io = vlib.run_exe(exe, [cand], timeout=60)[0]
-                return judge(P, cand, mo, io, known)[0] == "violation"
+                sl = P.spec_line(cand)
+                so = vlib.run_exe(driver, [sl], timeout=60, unlimited_stack=True)[0] if sl else None
+                return judge(P, cand, mo, io, known, so)[0] == "violation"
             try:
                 small = shrink(P, c, still)
             except Exception as ex:   # shrinking is best effort
@@ -278,7 +295,7 @@ def run_property(P, tier, seed, replay=None):
         kinds[c.split(" ")[0]] = kinds.get(c.split(" ")[0], 0) + 1
     obs_kinds = {}
     for m in mobs:
-        k = " ".join(m.split(" ")[:3]) if m.startswith("ERR") else m.split(" ")[0]
+        k = " ".join(m.split(" ")[:(2 if m.startswith("ERR parse") else 3)]) if m.startswith("ERR") else m.split(" ")[0]
         obs_kinds[k] = obs_kinds.get(k, 0) + 1
     coverage = {
         "obligations": n_obl, "discharged": n_dis,
@@ -287,7 +304,7 @@ def run_property(P, tier, seed, replay=None):
         "theorems": [{"name": o["name"], "status": o["status"], "axioms": o["axioms"]} for o in obligations],
         "evaluations": len(lines) * len(bins), "distinct_nontrivial": len(nontrivial),
         "rule": P.rule, "samples": samples, "case_kinds": kinds, "model_observation_kinds": obs_kinds,
-        "judgements": stats, "builds": [b for b, _ in bins], "coq_cross_checked_lines": len(xs),
+        "judgements": stats, "spec_oracle_lines": len(sidx), "builds": [b for b, _ in bins], "coq_cross_checked_lines": len(xs),
         "traces_validated_against_impl": len(lines), "disagreements_checked": len(viol_cases),
         "known_findings_reproduced": sorted(known_hit), "broken_obligations": broken, "notes": notes[-5:],
     }
